@@ -61,16 +61,17 @@ type cctxIn struct {
 }
 
 type cctxOut struct {
-	Runs        int64    `json:"runs"`
-	SharedRuns  int64    `json:"shared_runs"`
-	ReplRuns    int64    `json:"repl_sessions"`
-	Yields      int64    `json:"yields_injected"`
-	Instrs      int64    `json:"instructions_observed"`
-	Mismatches  []string `json:"mismatches"`
-	MismatchIDs []string `json:"mismatch_ids"`
-	Panics      []string `json:"panics"`
-	Rounds      int      `json:"rounds"`
-	Goroutines  int      `json:"goroutines"`
+	Runs         int64    `json:"runs"`
+	SharedRuns   int64    `json:"shared_runs"`
+	ReplRuns     int64    `json:"repl_sessions"`
+	FreshImports int64    `json:"fresh_gomodule_imports"`
+	Yields       int64    `json:"yields_injected"`
+	Instrs       int64    `json:"instructions_observed"`
+	Mismatches   []string `json:"mismatches"`
+	MismatchIDs  []string `json:"mismatch_ids"`
+	Panics       []string `json:"panics"`
+	Rounds       int      `json:"rounds"`
+	Goroutines   int      `json:"goroutines"`
 }
 
 func observe(src string, code *py.Code) (obs string) {
@@ -162,6 +163,15 @@ func cctxMain() int {
 	N := in.Goroutines
 	for r := 0; r < in.Rounds; r++ {
 		var wg sync.WaitGroup
+		// a Go module with a source body that NO context has imported yet: several contexts import it at the same time
+		freshName := fmt.Sprintf("ctxfresh%d", r)
+		py.RegisterModule(&py.ModuleImpl{
+			Info:    py.ModuleInfo{Name: freshName},
+			Globals: py.StringDict{"BASE": py.Int(int64(r))},
+			CodeSrc: "VALUE = BASE * 2 + 1\ndef get():\n    return VALUE\n",
+		})
+		freshSrc := fmt.Sprintf("import %s\nprint(%s.get())\n", freshName, freshName)
+		freshWant := fmt.Sprintf("%d\n", r*2+1)
 		for g := 0; g < N; g++ {
 			wg.Add(1)
 			go func(r, g int) {
@@ -176,6 +186,12 @@ func cctxMain() int {
 				k := (r*N + g*7 + int(*flagSeed)) % len(in.Programs)
 				p := in.Programs[k]
 				switch {
+				case g%5 == 2 || g%5 == 0 && r%2 == 1:
+					o := observe(freshSrc, nil)
+					atomic.AddInt64(&out.FreshImports, 1)
+					if o != freshWant {
+						mism("freshmod", fmt.Sprintf("fresh Go module with source body: %.200q vs %.200q", o, freshWant))
+					}
 				case shared != nil && g%5 == 4:
 					o := observe("", shared)
 					atomic.AddInt64(&out.SharedRuns, 1)
